@@ -42,6 +42,8 @@ func main() {
 		cmdCheck(os.Args[2:])
 	case "replay":
 		cmdReplay(os.Args[2:])
+	case "selftest":
+		cmdSelfTest()
 	default:
 		fmt.Fprintln(os.Stderr, "unknown command", os.Args[1])
 		os.Exit(2)
@@ -100,4 +102,21 @@ func cmdRun(args []string) {
 	}
 	out, _ := json.MarshalIndent(sum, "", " ")
 	fmt.Println(string(out))
+}
+
+func cmdSelfTest() {
+	l, err := load.Load("/repo", nil, "./language/lexer")
+	if err != nil {
+		fmt.Fprintln(os.Stderr, err)
+		os.Exit(2)
+	}
+	P := interp.NewProgram(l.Prog, repoPath)
+	n, bad := interp.SelfTest(P)
+	for _, b := range bad {
+		fmt.Println("SELFTEST MISMATCH:", b)
+	}
+	fmt.Printf("selftest: %d model/real comparisons, %d mismatches\n", n, len(bad))
+	if len(bad) > 0 {
+		os.Exit(2)
+	}
 }
